@@ -69,8 +69,22 @@ class Node:
         if m:
             return ok(str(self.counter if m.group(1) == self.pkh else 0))
         if path == '/chains/main/mempool/pending_operations':
-            return ok({'applied': self.mempool + self.foreign_pending, 'validated': self.mempool + self.foreign_pending, 'refused': [],
-                       'outdated': [], 'branch_refused': [], 'branch_delayed': [], 'unprocessed': []})
+            # where a pending group is listed depends on how far the node got with it: validated groups under `applied`, groups
+            # injected asynchronously and not looked at yet under `unprocessed` (as objects, or as [hash, operation] pairs)
+            pol = getattr(self, 'mempool_policy', 'applied')
+            applied, unprocessed = [], []
+            for i, g in enumerate(self.mempool):
+                if pol == 'applied' or (pol == 'alternate' and i % 2 == 0):
+                    applied.append(g)
+                elif pol == 'unprocessed-pairs':
+                    unprocessed.append([g['hash'], {k: v for k, v in g.items() if k != 'hash'}])
+                else:
+                    unprocessed.append(g)
+            applied = applied + (self.foreign_pending if pol != 'unprocessed-nothing-applied' else [])
+            if pol == 'unprocessed-nothing-applied':
+                unprocessed = unprocessed + self.foreign_pending
+            return ok({'applied': applied, 'validated': applied, 'refused': [],
+                       'outdated': [], 'branch_refused': [], 'branch_delayed': [], 'unprocessed': unprocessed})
         if re.match(r'^/chains/main/blocks/[^/]+/helpers/scripts/run_operation$', path):
             op = kwargs.get('json', {}).get('operation', {})
             contents = []
